@@ -24,6 +24,13 @@ def name_and_tld(s):
     return None
 
 
+def canon_of(st):
+    """the chain's own canonicalisation of every address string in play (recorded by the harness:
+    sdk.AccAddressFromBech32(x).String()); the properties speak about accounts, not spellings"""
+    tab = d(st.get("canon") or [])
+    return lambda x: tab.get(x, x)
+
+
 def opk(rec):
     (k, v), = rec["op"].items()
     return k, v
@@ -56,14 +63,20 @@ def c09(rec):
     k, v = opk(rec)
     if rec["ok"] and k in ("cancelBid", "acceptBid"):
         pre, post = rec["pre"], rec["post"]
-        idx = (v["creator"] if k == "cancelBid" else v["bidder"]) + v["lname"]
+        acc = canon_of(pre)
+        signer = acc(v["creator"])
+        bidder = signer if k == "cancelBid" else acc(v["bidder"])
         bids = d(pre["bids"])
-        if idx in bids:
+        # the open bid of that account on that name, whatever spelling the message used
+        hit = [ix for ix, b in bids.items() if acc(b["bidder"]) == bidder and b["name"] == v["lname"]]
+        if not hit:
+            out.append({"sig": {"prop": "C09", "kind": "no-such-bid", "op": k}, "what": f"{k} succeeded without an open bid of {bidder} on {v['lname']}"})
+        for idx in hit:
             b0, b1 = d(pre["bank"]), d(post["bank"])
             for den, amt in (bids[idx]["price"] or []):
-                if bal(b1, v["creator"], den) - bal(b0, v["creator"], den) != amt:
+                if bal(b1, signer, den) - bal(b0, signer, den) != amt:
                     out.append({"sig": {"prop": "C09", "kind": "payout-not-exact", "op": k},
-                                "what": f"{k}: signer received {bal(b1, v['creator'], den) - bal(b0, v['creator'], den)}{den}, bid held {amt}{den}"})
+                                "what": f"{k}: signer received {bal(b1, signer, den) - bal(b0, signer, den)}{den}, bid held {amt}{den}"})
             if idx in d(post["bids"]):
                 out.append({"sig": {"prop": "C09", "kind": "bid-not-removed", "op": k}, "what": f"{k}: bid still present"})
     return out + unchanged_if_failed(rec, "C09")
@@ -75,6 +88,7 @@ def c08(rec):
     pre, post = rec["pre"], rec["post"]
     h = rec["h"]
     n0, n1 = d(pre["names"]), d(post["names"])
+    acc = canon_of(pre)
     creator = v["creator"]
     for key, w in n0.items():
         if h > w["expires"]:
@@ -86,8 +100,8 @@ def c08(rec):
         if w1 == w:
             continue
         owner = w["value"]
-        if creator == owner:
-            if w1["value"] != owner and k not in ("transfer", "acceptBid"):
+        if acc(creator) == acc(owner):
+            if acc(w1["value"]) != acc(owner) and k not in ("transfer", "acceptBid"):
                 out.append({"sig": {"prop": "C08", "kind": "owner-moved-by-unexpected-op", "op": k},
                             "what": f"{k} by the owner changed the owner of {key}"})
             continue
@@ -102,18 +116,23 @@ def c08(rec):
                 b0, b1 = d(pre["bank"]), d(post["bank"])
                 if price and price[1] > 0:
                     den, amt = price
-                    if bal(b1, owner, den) - bal(b0, owner, den) != amt:
+                    if bal(b1, acc(owner), den) - bal(b0, acc(owner), den) != amt:
                         out.append({"sig": {"prop": "C08", "kind": "seller-not-paid", "op": k},
-                                    "what": f"buy of {key}: previous owner received {bal(b1, owner, den) - bal(b0, owner, den)}{den}, price {amt}{den}"})
-                    if bal(b0, creator, den) - bal(b1, creator, den) != amt:
+                                    "what": f"buy of {key}: previous owner received {bal(b1, acc(owner), den) - bal(b0, acc(owner), den)}{den}, price {amt}{den}"})
+                    if bal(b0, acc(creator), den) - bal(b1, acc(creator), den) != amt:
                         out.append({"sig": {"prop": "C08", "kind": "buyer-not-debited", "op": k},
-                                    "what": f"buy of {key}: buyer paid {bal(b0, creator, den) - bal(b1, creator, den)}{den}, price {amt}{den}"})
+                                    "what": f"buy of {key}: buyer paid {bal(b0, acc(creator), den) - bal(b1, acc(creator), den)}{den}, price {amt}{den}"})
                 if {**w, "value": creator, "data": "{}"} != w1:
                     out.append({"sig": {"prop": "C08", "kind": "buy-changed-more-than-owner", "op": k}, "what": f"buy altered {key} beyond owner/data"})
         if not ok_buy:
             what = "owner" if w1["value"] != owner else "data/records"
             out.append({"sig": {"prop": "C08", "kind": "non-owner-changed-live-name", "op": k, "field": what},
                         "what": f"{k} signed by a non-owner changed the {what} of live name {key}"})
+    # a successful delist takes the listing off the market (a listing left behind keeps the owner's
+    # consent to sell alive after they withdrew it)
+    if rec["ok"] and k == "delist" and v["lname"] in d(post["forsale"]):
+        out.append({"sig": {"prop": "C08", "kind": "delist-left-listing", "op": k},
+                    "what": f"delist of {v['lname']} succeeded but the listing is still on the market"})
     return out + unchanged_if_failed(rec, "C08")
 
 
@@ -126,7 +145,7 @@ def c16(rec):
     h = rec["h"]
     nt = name_and_tld(v["lname"])
     n0, n1 = d(pre["names"]), d(post["names"])
-    creator, years = v["creator"], v["years"]
+    creator, years = canon_of(pre)(v["creator"]), v["years"]
     if not rec["ok"]:
         return unchanged_if_failed(rec, "C16")
     if nt is None or len(nt[0]) == 0:
